@@ -5,7 +5,8 @@ id=$(echo "$1" | tr 'A-Z' 'a-z')
 src=/verif/findings/zz_finding_${id}_test.go
 [ -f "$src" ] || { echo "no witness test for $1"; exit 2; }
 tmp=$(mktemp -d); trap 'rm -rf $tmp' EXIT
-printf '{"Replace": {"/repo/zz_finding_%s_test.go": "%s"}}' "$id" "$src" > $tmp/ov.json
+pkg="."; [ "$id" = "d22" ] && pkg="./tests/config"   # D22 needs a generated package
+printf '{"Replace": {"/repo/%s/zz_finding_%s_test.go": "%s"}}' "$pkg" "$id" "$src" > $tmp/ov.json
 race=""; [ "$id" = "d16" ] && race="-race"
-cd /repo && GOFLAGS=-mod=mod GOPROXY=off GOSUMDB=off GOTOOLCHAIN=local go test $race -overlay $tmp/ov.json -vet=off -count=1 -timeout 300s -run "TestFinding$(echo $1 | tr 'a-z' 'A-Z')" -v . 2>&1 | tail -25
+cd /repo && GOFLAGS=-mod=mod GOPROXY=off GOSUMDB=off GOTOOLCHAIN=local go test $race -overlay $tmp/ov.json -vet=off -count=1 -timeout 300s -run "TestFinding$(echo $1 | tr 'a-z' 'A-Z')" -v $pkg 2>&1 | tail -25
 exit ${PIPESTATUS[0]}
